@@ -17,18 +17,42 @@ def post(run, exe, results, env):
     for name, progs in scen:
         conf = dict(progs=progs, NV=1, Loopers=list(range(2, len(progs) + 1)))
         e = dict(env, VERIF_SB=str(K + len(progs) + 1))
-        res = run_harness_env(exe, ["adversary", muconf.init_line(conf), REPLAYS], e)
+        res = run_harness_env(exe, ["adversary", "sb=%d " % (K + len(progs) + 1) + muconf.init_line(conf), REPLAYS], e)
         run.add("evaluations", 1); run.add("distinct_nontrivial", 1)
         run.cov.setdefault("adversary", []).append({"scenario": name, "victim_sleeps": res["maxsleeps"], "bound": K + len(progs) + 1})
         for v in res["viols"]:
             run.violation("%s|%s|adversary %s" % (v[0], v[1], name), v[4], v[5])
+    # the same with LONG_WAIT_THRESHOLD = 2 (guarded hook NSYNC_VERIF_LONG_WAIT_THRESHOLD in internal/common.h): the escalation is reached
+    # after two lost wake-ups, so every configuration of the family is small enough to be explored exhaustively, transitions and all
+    K2 = 2
+    exe2 = build("h_mu", extra_defs=kdefs(K2))
+    fam2 = []
+    for name, conf in muconfigs.family("C14", "thorough"):
+        conf = dict(conf); conf["K"] = K2; conf["SB"] = K2 + 3; conf["kthr"] = K2
+        fam2.append((name + "_k2", conf))
+    res2 = run_family(run, exe2, "C14", fam2, env=dict(env, VERIF_SB=str(K2 + 3)))
+    run.cov["max_victim_sleeps_in_tours_k2"] = max([out["res"]["maxsleeps"] for _, _, out in res2] + [0])
+    # search for the schedule that sends the victim back to sleep most often: hill climbing over schedule prefixes (h_mu climb)
+    cruns = {"quick": (3000, 20000), "thorough": (60000, 400000)}[run.tier]
+    for k, x, nbs, nruns in ((K, exe, (1, 2, 3), cruns[0]), (K2, exe2, (2, 3, 5), cruns[1])):
+        for nb in nbs:
+            progs = [P("L", "U")] + [P("L", "U") if i % 2 == 0 else P("R", "RU") for i in range(nb)]
+            conf = dict(progs=progs, NV=1, Loopers=list(range(2, nb + 2)))
+            if k != K:
+                conf["kthr"] = k
+            bound = k + nb + 2
+            res = run_harness_env(x, ["climb", str(nruns), str(seed() + nb), "sb=%d " % bound + muconf.init_line(conf), REPLAYS], dict(env, VERIF_SB=str(bound)))
+            run.add("evaluations", nruns); run.add("distinct_nontrivial", res["stats"].get("nontrivial", 0))
+            run.cov.setdefault("schedule_search", []).append({"K": k, "bargers": nb, "runs": nruns, "max_victim_sleeps": res["maxsleeps"], "bound": bound})
+            for v in res["viols"]:
+                run.violation("%s|%s|search K=%d bargers=%d" % (v[0], v[1], k, nb), v[4], v[5])
     # random schedules with many barging threads
     runs = 300 if run.tier == "quick" else 5000
     for nb in (4, 6):
         progs = [P("L", "U")] + [P("L", "U") if i % 2 else P("R", "RU") for i in range(nb)]
         conf = dict(progs=progs, NV=1, Loopers=list(range(2, nb + 2)))
         e = dict(env, VERIF_SB=str(K + nb + 2))
-        res = run_harness_env(exe, ["random", str(runs), str(seed()), muconf.init_line(conf), REPLAYS], e)
+        res = run_harness_env(exe, ["random", str(runs), str(seed()), "sb=%d " % (K + nb + 2) + muconf.init_line(conf), REPLAYS], e)
         run.add("evaluations", runs); run.add("distinct_nontrivial", res["stats"].get("nontrivial", 0))
         run.cov.setdefault("random_bargers", []).append({"bargers": nb, "runs": runs, "max_victim_sleeps": res["maxsleeps"], "bound": K + nb + 2})
         for v in res["viols"]:
